@@ -112,13 +112,23 @@ enum Msg {
 
 /// End to end: one connection per case, negotiated channel_max = `max`.
 fn run_e2e(out: &mut Shards, max: u16, ops: &[Op], kind: &str, hang_limit: Duration) -> bool {
-    out.reset(json!({"max": max, "via": "e2e", "kind": kind, "ops": ops_json(ops)}));
+    // the negotiated channel_max is `max` in every variant; what differs is who asked for it: the server
+    // (client has no wish), the client (server offers more, or no limit at all), or both
+    static VARIANT: std::sync::atomic::AtomicUsize = std::sync::atomic::AtomicUsize::new(0);
+    let variant = VARIANT.fetch_add(1, std::sync::atomic::Ordering::Relaxed) % 4;
+    let (srv_max, cli_max): (u16, u16) = match variant {
+        0 => (max, 0),
+        1 => (if max < 60000 { max + 5 } else { 0 }, max),
+        2 => (0, max),
+        _ => (max, if max < 60000 { max + 9 } else { max }),
+    };
+    out.reset(json!({"max": max, "via": "e2e", "kind": kind, "ops": ops_json(ops), "server_offer": srv_max, "client_wish": cli_max}));
     let closeok: Arc<Mutex<HashSet<u16>>> = Arc::new(Mutex::new(HashSet::new()));
     let opened_at_broker: Arc<Mutex<Vec<u16>>> = Arc::new(Mutex::new(Vec::new()));
     let co = closeok.clone();
     let ob = opened_at_broker.clone();
     let mut cfg = BrokerCfg::default();
-    cfg.tune = (max, 131072, 0);
+    cfg.tune = (srv_max, 131072, 0);
     cfg.log_frames = false;
     let custom: vh::broker::Custom = Box::new(move |_b, f, _r| {
         if let AMQPFrame::Method(ch, AMQPClass::Channel(m)) = f {
@@ -134,7 +144,7 @@ fn run_e2e(out: &mut Shards, max: u16, ops: &[Op], kind: &str, hang_limit: Durat
     });
     let (conn, net) = session::open_with(
         cfg,
-        ConnectionOptions::default().heartbeat(0),
+        ConnectionOptions::default().heartbeat(0).channel_max(cli_max),
         ConnectionTuning::default(),
         Some(custom),
         |_| {},
